@@ -147,6 +147,23 @@ def p_routes_agree(x):
         c = dc.DebianCopyright.from_fields_groups(deb822.get_paragraphs_as_field_groups(t))
         if _snap(c) != sb:
             return 'the object built from the field groups of the text differs from the object built from the text'
+        import pathlib
+        if _snap(dc.DebianCopyright.from_file(pathlib.Path(path))) != sb:
+            return 'the object read through a pathlib.Path differs from the object built from the text'
+        if len(t) < 20000:
+            # the same path read again after the caller emptied the first object; then the file rewritten with another
+            # document of the same size and the same modification time
+            a.paragraphs.clear()
+            if _snap(dc.DebianCopyright.from_file(path)) != sb:
+                return 'a second read of the same file, after the caller emptied the first object, differs from the first'
+            t2 = t.replace('a', '\0').replace('e', 'a').replace('\0', 'e')
+            if t2 != t and len(t2.encode('utf-8')) == len(t.encode('utf-8')):
+                mt = os.stat(path).st_mtime_ns
+                with open(path, 'w', encoding='utf-8', newline='') as f:
+                    f.write(t2)
+                os.utime(path, ns=(mt, mt))
+                if _snap(dc.DebianCopyright.from_file(path)) != _snap(dc.DebianCopyright.from_text(t2)):
+                    return 'the file rewritten with another document of the same size (same modification time) is read as %s' % _snap(dc.DebianCopyright.from_file(path))[:300]
         hd = [p for p in b.paragraphs if isinstance(p, dc.CopyrightHeaderParagraph)]
         if b.get_header() is not (hd[0] if hd else None):
             return 'get_header() does not return the first header paragraph'
